@@ -87,6 +87,8 @@ func newSocksTarget() (*socksTarget, error) {
 	return t, nil
 }
 
+var socksLoadMu sync.Mutex
+
 func runSocks(c *socksCase, i int, tgt *socksTarget) (*socksTrace, error) {
 	tr := &socksTrace{ID: fmt.Sprintf("socks:%d", i), Cfg: c.Cfg, Sc: c.Sc, Method: -1, AuthRep: -1, Reply: -1, May: c.May}
 	h := &l4socks.Socks5Handler{Commands: c.Cfg.Cmds}
@@ -122,9 +124,20 @@ func runSocks(c *socksCase, i int, tgt *socksTarget) (*socksTrace, error) {
 	}
 	ctx, cancel := caddy.NewContext(caddy.Context{Context: context.Background()})
 	defer cancel()
-	if err := h.Provision(ctx); err != nil {
-		return nil, fmt.Errorf("provision: %v", err)
+	// the handler is created, filled from JSON and provisioned by Caddy's module loader, as in a loaded configuration
+	// (the Caddyfile form contributes the JSON its parser produced); instances of other cases live in the same process
+	raw, err := json.Marshal(h)
+	if err != nil {
+		return nil, err
 	}
+	// (configurations are loaded one at a time, as Caddy does; the sessions then run in parallel)
+	socksLoadMu.Lock()
+	mod, err := ctx.LoadModuleByID("layer4.handlers.socks5", raw)
+	socksLoadMu.Unlock()
+	if err != nil {
+		return nil, fmt.Errorf("loading %s: %v", raw, err)
+	}
+	h = mod.(*l4socks.Socks5Handler)
 	cli, srv := net.Pipe()
 	defer cli.Close()
 	cx := layer4.WrapConnection(srv, nil, zap.NewNop())
